@@ -13,3 +13,4 @@ pub mod pipefail;
 pub mod table;
 pub mod wal;
 pub mod walfail;
+pub mod yieldp;
